@@ -12,7 +12,8 @@ RULE = ('lock-step search on the real library: random (Fs, channels, application
         'LSB depth, prediction, phase inversion, frame duration 2.5-120 ms, reset), int16/int24/float input, signals silence / '
         'sine / noise / full-scale square / quiet noise / speech-like bursts / NaN+Inf / 1e9, max_data_bytes 1..1500 with emphasis '
         'on 1..12; every packet is parsed and decoded by 10 decoders (5 rates x mono/stereo); multistream and projection '
-        'encoders with their decoders. Plus the skeleton replay of C05 (same harness) for the packet structure. A case is '
+        'encoders with their decoders, incl. max_data_bytes 1..600 exhaustively for 7 layouts at high rates; multi-frame VBR '
+        'packets with sub-frames >= 253 bytes nearly filling max_data_bytes (+-8 sweep around a probe packet). Plus the skeleton replay of C05 (same harness) for the packet structure. A case is '
         'distinct by (mode, bandwidth, duration, code, outcome).')
 NOT_COVERED = ['that encoder and decoder payload symbol sequences mirror each other (SILK/CELT symbol layers on the encoder side '
                'depend on float decisions): final-range equality is only searched on the implementation, never proved',
@@ -43,6 +44,7 @@ def ties(ctx):
     out = []
     out.append(common.run_tie('encskel-rand', [hs, 'rand', str(s + 500), '700' if q else '8000']))
     out.append(common.run_tie('encskel-gentoc', [hs, 'gentoc']))
+    out.append(common.run_tie('encskel-fill', [hs, 'fill', str(s + 500), '0' if q else '1']))
     if not q:
         out.append(common.run_tie('encskel-sweep', [hs, 'sweep', str(s + 500), '1']))
         hf = _c05._h(ctx, 'fuzzing')
@@ -92,7 +94,9 @@ def _runs(ctx):
     hp = _c05._h(ctx, 'plain', 'c02_lockstep')
     runs = [('lockstep-san', [hs, 'lock', str(s), '400' if q else '6000']),
             ('lockstep', [hp, 'lock', str(s + 100), '2500' if q else '40000']),
+            ('lockstep-fill', [hp, 'fill', str(s), '0' if q else '1']),
             ('lockstep-ms', [hp, 'ms', str(s), '500' if q else '8000']),
+            ('lockstep-mssweep', [hp, 'mssweep', str(s), '0' if q else '1']),
             ('lockstep-ms-san', [hs, 'ms', str(s + 100), '100' if q else '1500'])]
     if not q:
         hf = _c05._h(ctx, 'fuzzing', 'c02_lockstep')
